@@ -51,6 +51,8 @@ def run_batch(pid, tier, batch_seed, n_examples, watchdog_s):
         "permuted": 0,
         "skipped": 0,
         "shrink_runs": 0,
+        "slowest_s": 0.0,
+        "slowest_case": None,
     }
     digests = set()
     state = {"target": None, "last_fail": None, "searching": True}
@@ -64,6 +66,7 @@ def run_batch(pid, tier, batch_seed, n_examples, watchdog_s):
         out["evaluations"] += 1
         if state["target"] is not None:
             out["shrink_runs"] += 1
+        t_case = time.perf_counter()
         try:
             run = engine.execute(case, focus=pid)
         except Violation as v:
@@ -73,6 +76,10 @@ def run_batch(pid, tier, batch_seed, n_examples, watchdog_s):
                 return  # keep the violation class stable while shrinking
             state["last_fail"] = (case, v.label, v.message)
             raise
+        dt = time.perf_counter() - t_case  # reporting only: never used for a decision
+        if dt > out["slowest_s"]:
+            out["slowest_s"] = dt
+            out["slowest_case"] = case
         if state["target"] is None:
             out["checks"] += run.checks
             for k, n in run.probes.items():
@@ -234,6 +241,9 @@ def check_property(prop, tier, base_seed):
                     digests.update(res["digests"])
                     if len(agg["samples"]) < 3:
                         agg["samples"].extend(res["samples"][: 3 - len(agg["samples"])])
+                    if res["slowest_s"] > agg.get("slowest_s", 0):
+                        agg["slowest_s"] = res["slowest_s"]
+                        agg["slowest_case"] = res["slowest_case"]
                     if res["harness_error"] and harness is None:
                         harness = f"batch {bidx} seed {bseed}: {res['harness_error']}"
                     if res["failure"] and failure is None:
@@ -342,6 +352,8 @@ def write_evidence(prop, tier, base_seed, agg, digests, wall, batches_done, n_ba
             "workers": WORKERS,
             "known_findings_replayed": known_lines,
             "shrink_executions": int(agg["shrink_runs"]),
+            "slowest_run_wall_s": round(agg.get("slowest_s", 0.0), 3),
+            "slowest_run_case": agg.get("slowest_case"),
         },
         "assumptions": desc["assumptions"],
         "wall_s": round(wall, 2),
